@@ -565,8 +565,10 @@ theorem WF.search_loop {s : Sp K} (h : WF s) (ci : Array Nat)
       | some i => pure (some i)
       | none => do
         let ri ← aget s.rowIndex k
-        let c ← aget ci k
-        if ri == row && c == col then pure (some k) else pure none) = .ok (firstSlot s row col) := by
+        if ri == row then do
+          let c ← aget ci k
+          if c == col then pure (some k) else pure none
+        else pure none) = .ok (firstSlot s row col) := by
   obtain ⟨r, h1, h2⟩ := forM'_inv
     (fun m (found : Option Nat) =>
       found = firstHit (fun k => s.ri k == row && s.colOf k == col) m)
@@ -575,16 +577,22 @@ theorem WF.search_loop {s : Sp K} (h : WF s) (ci : Array Nat)
       | some i => pure (some i)
       | none => do
         let ri ← aget s.rowIndex k
-        let c ← aget ci k
-        if ri == row && c == col then pure (some k) else pure none) (Nat.zero_le _) rfl (by
+        if ri == row then do
+          let c ← aget ci k
+          if c == col then pure (some k) else pure none
+        else pure none) (Nat.zero_le _) rfl (by
       intro m found _ hm hf
       have hc := Mat.aget_eq_ok.mpr (hci m hm)
       cases found with
       | some i =>
         exact ⟨some i, rfl, by simp only [firstHit, ← hf]⟩
       | none =>
-        simp only [h.aget_ri hm, hc, bind, Except.bind, firstHit, ← hf]
-        split <;> exact ⟨_, rfl, rfl⟩)
+        simp only [h.aget_ri hm, bind, Except.bind, firstHit, ← hf]
+        by_cases hr : (s.ri m == row) = true
+        · simp only [hr, if_true, hc, Bool.true_and]
+          split <;> exact ⟨_, rfl, rfl⟩
+        · simp only [hr, Bool.false_and]
+          exact ⟨_, rfl, rfl⟩)
   rw [h1, h2]; rfl
 
 /-- `get(row, col)` of a well-formed storage returns the value of the FIRST slot holding that
@@ -605,10 +613,12 @@ theorem WF.get_spec {s : Sp K} (h : WF s) {row col : Nat} (hr : row < s.rows) (h
       | some v => pure (some v)
       | none => do
         let ri ← aget s.rowIndex k
-        let c ← aget ci k
-        if ri == row && c == col then do
-          let v ← aget s.val k
-          pure (some v)
+        if ri == row then do
+          let c ← aget ci k
+          if c == col then do
+            let v ← aget s.val k
+            pure (some v)
+          else pure none
         else pure none) (Nat.zero_le _) rfl (by
       intro m found _ hm hf
       have hc := Mat.aget_eq_ok.mpr (c3 m hm)
@@ -624,10 +634,14 @@ theorem WF.get_spec {s : Sp K} (h : WF s) {row col : Nat} (hr : row < s.rows) (h
           cases hh : firstHit (fun k => s.ri k == row && s.colOf k == col) m with
           | none => rfl
           | some i => rw [hh] at hf; cases hf
-        simp only [h.aget_ri hm, hc, bind, Except.bind, firstHit, hh]
-        split
-        · exact ⟨_, by rw [h.aget_vl hm]; rfl, rfl⟩
-        · exact ⟨_, rfl, rfl⟩)
+        simp only [h.aget_ri hm, bind, Except.bind, firstHit, hh]
+        by_cases hr : (s.ri m == row) = true
+        · simp only [hr, if_true, hc, Bool.true_and]
+          split
+          · exact ⟨_, by rw [h.aget_vl hm]; rfl, rfl⟩
+          · exact ⟨_, rfl, rfl⟩
+        · simp only [hr, Bool.false_and]
+          exact ⟨_, rfl, rfl⟩)
   exact h1.trans (by rw [h2]; rfl)
 
 end Get
